@@ -1,5 +1,6 @@
 import RR.Proof.SyncWork
 import RR.Proof.Hand
+import RR.Proof.DspFir
 
 /-!
 # C09 — block verdicts are truthful
@@ -117,5 +118,55 @@ theorem c09_rtlsdr (w : List Nat) (f : Nat) :
 /-! Non-vacuity. -/
 example : (syncWork tee () ⟨[⟨[], [], false⟩], [⟨4, true⟩, ⟨4, true⟩]⟩).2.verdict = .waitIn 0 1 := by decide
 example : (skipWork 3 ⟨[⟨[1, 2], [], true⟩], [⟨4, true⟩]⟩).2.consumed = [2] := by decide
+
+/-- FIR filter (any arithmetic, any decimation): it waits for input exactly when fewer than
+`ntaps + deci - 1` samples are readable — and names that amount, with which it WILL make
+progress —, for output exactly when there is no room, and otherwise consumes a positive
+multiple of `deci`, within the window, committing no more than the free space. -/
+theorem c09_fir {α : Type} (o : Dsp.Ops α) (cd : Dsp.Codec α) (rt : List α) (deci : Nat) (w : List Nat)
+    (ts : List Tag) (f : Nat) (hd : 0 < deci) (ht : 0 < rt.length) :
+    let r := Dsp.firWork o cd rt deci () ⟨[⟨w, ts, true⟩], [⟨f, true⟩]⟩
+    (r.2.verdict = .waitIn 0 (rt.length + deci - 1) ∧ w.length < rt.length + deci - 1 ∧ r.2.consumed = [0]) ∨
+    (r.2.verdict = .waitOut 0 1 ∧ rt.length + deci - 1 ≤ w.length ∧ f = 0 ∧ r.2.consumed = [0]) ∨
+    (r.2.verdict = .again ∧ rt.length + deci - 1 ≤ w.length ∧ 0 < f ∧
+      0 < r.2.consumed.getD 0 0 ∧ r.2.consumed.getD 0 0 % deci = 0 ∧
+      r.2.consumed.getD 0 0 + rt.length - 1 ≤ w.length ∧
+      (r.2.produced.getD 0 ⟨[], []⟩).samples.length = r.2.consumed.getD 0 0 / deci ∧
+      (r.2.produced.getD 0 ⟨[], []⟩).samples.length ≤ f) := by
+  intro r
+  have hne : ¬ (deci = 0 ∨ rt.length = 0) := by omega
+  by_cases h1 : w.length < rt.length + deci - 1
+  · left
+    simp only [r, Dsp.firWork, in0, out0, noOut, List.getD_cons_zero, hne, if_false, h1, if_true]
+    simp
+  · right
+    have hq1 : 1 ≤ (w.length - rt.length + 1) / deci := by
+      rw [Nat.le_div_iff_mul_le hd]; omega
+    have hn0 : deci * ((w.length - rt.length + 1) / deci) ≠ 0 := by
+      have : 0 < deci * ((w.length - rt.length + 1) / deci) := Nat.mul_pos hd (by omega)
+      omega
+    have hle : deci * ((w.length - rt.length + 1) / deci) ≤ w.length - rt.length + 1 := Nat.mul_div_le _ _
+    have hneed : ¬ w.length < deci * ((w.length - rt.length + 1) / deci) + rt.length - 1 := by omega
+    by_cases h2 : f < 1
+    · left
+      simp only [r, Dsp.firWork, in0, out0, noOut, List.getD_cons_zero, hne, if_false, h1, hn0, hneed, h2, if_true]
+      simp
+      omega
+    · right
+      generalize hQ : (w.length - rt.length + 1) / deci = Q at *
+      have hmin : min (deci * Q) (f * deci) = min Q f * deci := by
+        rw [Nat.mul_comm deci Q, Nat.mul_min_mul_right]
+      have hj : 1 ≤ min Q f := by omega
+      have hpos : 0 < min Q f * deci := Nat.mul_pos (by omega) hd
+      have hmod : ¬ (min (deci * Q) (f * deci) % deci ≠ 0 ∨ min (deci * Q) (f * deci) = 0) := by
+        rw [hmin]; simp [Nat.mul_mod_left]; omega
+      have hjq : min Q f * deci ≤ Q * deci := Nat.mul_le_mul_right _ (Nat.min_le_left _ _)
+      simp only [r, Dsp.firWork, in0, out0, noOut, hne, h1, hn0, hneed, h2, hmod, hQ, if_false,
+        List.getD_cons_zero, true_and]
+      refine ⟨by omega, by omega, by rw [hmin]; exact hpos, by rw [hmin]; exact Nat.mul_mod_left _ _, ?_, ?_, ?_⟩
+      · rw [hmin, Nat.mul_comm deci Q] at *; omega
+      · simp [Dsp.filterN]
+      · simp only [Dsp.filterN, List.length_map, List.length_range, hmin, Nat.mul_div_cancel _ hd]
+        exact Nat.min_le_right _ _
 
 end RR.Props.C09
